@@ -202,7 +202,7 @@ theorem tensordotAxes_elem_scatter (sa sb : Shape) (la ra : List Int) (la' ra' :
   simp only [hla, hra, Option.bind_eq_bind, Option.bind_some, hn]
   exact hr
 
-theorem scatterFold_length (acc : List Nat) (ps : List (Nat × Nat)) : (scatterFold acc ps).length = acc.length := by
+theorem la_scatterFold_length (acc : List Nat) (ps : List (Nat × Nat)) : (scatterFold acc ps).length = acc.length := by
   induction ps generalizing acc with
   | nil => rfl
   | cons p ps ih => simp only [scatterFold, List.foldl_cons] at ih ⊢; rw [ih]; simp
@@ -250,8 +250,8 @@ theorem scatter_getElem?_mem (d σ : List Nat) (hnd : σ.Nodup) (v k : Nat) (hm 
   rw [this]
   exact List.Nodup.sublist (List.take_sublist _ _) hnd
 
-theorem scatter_length (d σ : List Nat) : (scatter d σ).length = d.length := by
-  rw [scatter_eq, scatterFold_length]; simp
+theorem la_scatter_length (d σ : List Nat) : (scatter d σ).length = d.length := by
+  rw [scatter_eq, la_scatterFold_length]; simp
 
 /-- is axis `i` one of the listed ones (as `placeIdx` decides it) -/
 def listed (A c : List Nat) (i : Nat) : Bool := ((A.zip c).lookup i).isSome
@@ -417,7 +417,7 @@ theorem scatter_moveToEnd (dim : Nat) (A c p : List Nat) (hnd : A.Nodup) (hlt : 
     rw [listed_eq_contains A c hnd hc.symm]
   obtain ⟨hplen, hpget⟩ := placeIdx_getElem? A c (List.range dim) p (by rw [hfilt, hp]; exact Nat.le_refl _)
   have hslen : (scatter (p ++ c) (moveToEnd dim A)).length = dim := by
-    rw [scatter_length]; simp; omega
+    rw [la_scatter_length]; simp; omega
   apply List.ext_getElem?
   intro j
   by_cases hj : j < dim
@@ -471,7 +471,7 @@ theorem mapM_getElem?_of_lt (s L : List Nat) (h : ∀ i ∈ L, i < s.length) :
     rw [List.mapM_cons, List.filterMap_cons, hx, ih (fun i hi => h i (by simp [hi]))]
     rfl
 
-theorem mapM_some_length {α β : Type} (f : α → Option β) (l : List α) (r : List β) (h : l.mapM f = some r) :
+theorem la_mapM_some_length {α β : Type} (f : α → Option β) (l : List α) (r : List β) (h : l.mapM f = some r) :
     r.length = l.length := by
   induction l generalizing r with
   | nil => simp at h; subst h; rfl
@@ -545,7 +545,7 @@ theorem tensordotAxes_eq_spec (sa sb : Shape) (la ra : List Int) (la' ra' : List
         · exact hfb_lt i hi
         · exact hltb i hi
     have hn : la.length = C.length := by
-      rw [hClen, mapM_some_length _ la la' hla]
+      rw [hClen, la_mapM_some_length _ la la' hla]
     have hlb : sb.length = FB.length + C.length := by
       have := free_count sb.length ra' hndb hltb
       rw [hFBlen, hClen, hlen]; simp only [fb]; omega
